@@ -90,7 +90,48 @@ func rwBodyOf(n, w, seq int, got []byte) []byte {
 	return nil
 }
 
+// handleNames: a handle obtained twice for one name is the same handle, whatever the name looks like; and a name that
+// merely spells a path inside a configured logger's sub-tree is not a configured logger.
+func handleNames(r *hx.Result) {
+	log.Destroy()
+	log.VerifReset()
+	sys.ResetAppenders()
+	for _, name := range []string{"audit_log", "audit-log", "Audit", "UPPER", "a.b", "with space", "ünï", "lg.level", "x!"} {
+		var h1, h2 *log.LoggerWrapper
+		p := hx.Catch(func() { h1, h2 = log.GetLogger(name), log.GetLogger(name) })
+		r.Eval(1)
+		if p == nil && h1 != h2 {
+			r.Violate("handle-not-same", map[string]any{"name": name}, "GetLogger(%q) twice returned different handles", name)
+		}
+	}
+	log.VerifReset()
+	for _, name := range []string{"lg.level", "lg.appenderRef", "lg.appenderRef.ref", "lg.type", "logger.lg", "lg."} {
+		log.Destroy()
+		log.VerifReset()
+		sys.ResetAppenders()
+		var h *log.LoggerWrapper
+		if p := hx.Catch(func() { h = log.GetLogger(name) }); p != nil || h == nil {
+			continue
+		}
+		cfg := sys.Cfg{}
+		cfg.AddRec("hn1")
+		cfg.AddLogger("lg", "Logger", "INFO", "hn_tag", []sys.Ref{{Ref: "hn1"}}, false, nil)
+		var rerr error
+		p := hx.Catch(func() { rerr = log.Refresh(cfg.Map(nil)) })
+		log.Destroy()
+		r.Eval(1)
+		desc := map[string]any{"requested_handle": name, "configured_loggers": "lg"}
+		if p != nil {
+			r.Violate("refresh-panic", desc, "Refresh panicked: %v", p)
+		} else if rerr == nil {
+			r.Violate("unconfigured-handle-accepted", desc, "a handle was requested for %q, only logger lg is configured, and Refresh succeeded", name)
+		}
+	}
+	log.VerifReset()
+}
+
 func cmdRawWrite(f hx.Flags, r *hx.Result) {
+	defer handleNames(r)
 	refSetNo := 0
 	rng := hx.Rand(12)
 	console := sys.InstallConsole()
@@ -118,6 +159,9 @@ func cmdRawWrite(f hx.Flags, r *hx.Result) {
 				perWriter := 6
 				if class == "large" {
 					perWriter = 2
+					if kind == "console" {
+						perWriter = 5 // the console stream is shared by all writers: more overlapping large writes
+					}
 				}
 				dir := filepath.Join(tmp, fmt.Sprintf("k%d", n))
 				_ = os.MkdirAll(dir, 0o755)
